@@ -47,7 +47,8 @@ class HarnessBug(Exception):
 
 class Sub(object):
     def __init__(self, name, check, gen=None, enum=None, quick=1000, thorough=10000,
-                 floors=None, shards=N_PROC, doc='', min_nt=0):
+                 floors=None, shards=N_PROC, doc='', min_nt=0, custom=None):
+        self.custom = custom          # callable(seed) -> [(export, fail, err), ...]; thorough tier only
         self.name = name
         self.check = check
         self.gen = gen
@@ -349,6 +350,21 @@ def run_property(mod, tier, seed, only_sub=None):
         for sub in mod.SUBS:
             if only_sub and sub.name != only_sub:
                 continue
+            if sub.custom is not None:
+                if tier != 'thorough':
+                    continue
+                results = sub.custom(seed)
+                merged = _merge([r[0] for r in results])
+                for r in results:
+                    if r[2]:
+                        harness_errors.append('%s: %s' % (sub.name, r[2]))
+                    if r[1]:
+                        recipe, kind, detail = r[1]
+                        p_ = write_replay(pid, r[3] if len(r) > 3 else sub.name, recipe, kind, detail, seed)
+                        violations.append((sub.name, kind, p_, detail))
+                per_sub[sub.name] = merged
+                per_sub[sub.name]['exhaustive'] = False
+                continue
             excluded = []
             merged_all = []
             for rnd in range(4):       # collect-then-shrink, one bucket per round
@@ -390,6 +406,8 @@ def run_property(mod, tier, seed, only_sub=None):
     if not violations:
         for sub in mod.SUBS:
             m = per_sub.get(sub.name)
+            if sub.custom is not None and m is not None and not m['evaluations']:
+                continue
             if not m or not m['evaluations']:
                 if m is not None:
                     harness_errors.append('%s: no cases evaluated' % sub.name)
